@@ -26,8 +26,12 @@ INVS = ["TypeOK", "BaseDerivable", "BaseZeroIsEither", "MapConsistent", "AcceptD
 NBASE = {"tiny": 4, "quick": 53, "thorough": 250}
 # deliberately wrong specifications: each must violate the named invariant (vacuity guard for the invariants)
 WRONG = [("enc_name_without_nul", "BaseDerivable"), ("ignore_field_count", "TruncationRejected"), ("item_budget_is_buffer", "SpliceDisagrees"), ("no_nul_check", "NameNulChecked")]
+WRONG_THOROUGH = [("no_version_check", "VersionChecked"), ("enc_range_off_by_one", "EncodingChecked"), ("accept_nonflat", "NonFlatNeverAccepted"), ("put_off_by_one", "MutationApplied")]
 ENCORD = {"msg": 0, "tmpl": 1, "frame": 2, "tun": 3, "mtun": 4}
 MICRO_ENV = {"ASAN_OPTIONS": "detect_leaks=0:halt_on_error=0:handle_segv=0:allocator_may_return_null=1:exitcode=66"}
+# single allocations above 768 MB fail at once (malloc returns NULL: the out-of-memory paths run) instead of costing seconds of shadow-memory
+# work on a shared machine; everything smaller is allocated and counted by the allocation monitor
+ASAN_ENV = {"ASAN_OPTIONS": vlib.SAN_ENV["ASAN_OPTIONS"].replace("max_allocation_size_mb=4096", "max_allocation_size_mb=768")}
 STACK_KB = 8192           # the nesting cases run with an 8 MiB stack
 F7_DEPTH = 2000
 
@@ -83,6 +87,7 @@ def run(v, tier, seed):
         return r.violated == inv
 
     menu = "quick" if quick else "thorough"
+    wrong = WRONG if quick else WRONG + WRONG_THOROUGH
     nb = NBASE[menu]
     if quick: shards = [(1, 27, 3), (28, 52, 3), (53, 53, 3)]
     else: shards = [(248, 248, 2), (249, 249, 2), (250, 250, 2)] + [(lo, min(lo + 12, 247), 2) for lo in range(1, 248, 13)]
@@ -90,9 +95,9 @@ def run(v, tier, seed):
         with cf.ThreadPoolExecutor(max_workers=(6 if quick else 7)) as ex:
             f_build = ex.submit(build)
             f_sh = [ex.submit(enumerate_shard, menu, lo, hi, w) for lo, hi, w in shards]
-            f_wr = [ex.submit(wrong_run, w, inv) for w, inv in WRONG]
+            f_wr = [ex.submit(wrong_run, w, inv) for w, inv in wrong]
             res = [f.result() for f in f_sh]
-            for (w, inv), f in zip(WRONG, f_wr):
+            for (w, inv), f in zip(wrong, f_wr):
                 if not f.result(): raise vlib.MachineryError("vacuity guard: the deliberately wrong specification (%s) does not violate %s" % (w, inv))
             mini_bin, micro_bin = f_build.result()
     finally:
@@ -154,7 +159,7 @@ def run(v, tier, seed):
     mut = vlib.binpath("asan", "mut")
     deaths = []      # (name, rc, case index, stderr tail)
 
-    def drive(name, argv, report, cursor, timeout, env=None, max_deaths=25):
+    def drive(name, argv, report, cursor, timeout, env=ASAN_ENV, max_deaths=25):
         for p in (report, cursor):
             if os.path.exists(p): os.remove(p)
         start = 0; nd = 0; t0 = time.time()
@@ -188,12 +193,12 @@ def run(v, tier, seed):
         return drive("rand%d" % j, lambda s: [mut, "rand", str(seed * 16 + j), str(s), str(per), W("rep_rand%d.ndjson" % j), W("cur_rand%d" % j)], W("rep_rand%d.ndjson" % j), W("cur_rand%d" % j), 280 if quick else 1700)
 
     def run_nest(depth):
-        rc, out, err = vlib.run(["bash", "-c", "ulimit -s %d; exec %s nest %d" % (STACK_KB, mut, depth)], timeout=120)
+        rc, out, err = vlib.run(["bash", "-c", "ulimit -s %d; exec %s nest %d" % (STACK_KB, mut, depth)], timeout=300)
         return rc, out, err
 
     # self-test of the oracle: relabelled / corrupted cases must be flagged by the harness
     base1 = [c for c in cases if c["enc"] == "msg" and c["k"] == "base" and c["v"] == "A"][1]
-    trunc1 = [c for c in cases if c["enc"] == "msg" and c["k"] == "trunc" and c["v"] == "R" and c["base"] == base1["base"]][-1]
+    trunc1 = [c for c in cases if c["enc"] == "msg" and c["k"] == "trunc" and c["v"] == "R" and c["base"] == base1["base"] and c["pos"] == 14][0]      # cut inside the first name-length word
     tbase = [c for c in cases if c["enc"] == "tmpl" and c["k"] == "base" and c["base"] == base1["base"]][0]
     st = [base1, dict(base1, k="selftest", v="R", why="relabelled"),                 # a valid encoding labelled MustReject
           dict(trunc1, k="selftest", v="A"),                                          # a truncation labelled MustAccept
@@ -203,7 +208,7 @@ def run(v, tier, seed):
     def run_selftest():
         for p in (W("rep_self.ndjson"), W("cur_self")):
             if os.path.exists(p): os.remove(p)
-        rc, out, err = vlib.run([mut, "cases", W("bases.ndjson"), W("selftest.ndjson"), W("rep_self.ndjson"), "0", W("cur_self"), "quick"], timeout=120)
+        rc, out, err = vlib.run([mut, "cases", W("bases.ndjson"), W("selftest.ndjson"), W("rep_self.ndjson"), "0", W("cur_self"), "quick"], timeout=300, env=ASAN_ENV)
         rows = vlib.read_ndjson(W("rep_self.ndjson")) if os.path.exists(W("rep_self.ndjson")) else []
         flagged = set()
         for r in rows:
@@ -222,7 +227,6 @@ def run(v, tier, seed):
         r_cases = [f.result() for f in f_cases]; r_mini = f_mini.result(); r_mv = f_mv.result(); r_mh = f_mh.result(); r_rand = [f.result() for f in f_rand]
         st_ok, st_n, st_txt = f_self.result()
         n200 = f_n200.result(); nbig = f_nbig.result(); sweep = [f.result() for f in f_sweep]
-    if not st_ok: raise vlib.MachineryError("oracle self-test: relabelled / corrupted cases were not flagged by the harness (%s)" % st_txt)
 
     # ------------------------------------------------------------------------------------------ verdicts
     tot = collections.Counter(); by_target = collections.Counter(); worst = {"peak": 0, "n": 0, "permille": 0}
@@ -239,7 +243,7 @@ def run(v, tier, seed):
                 if r.get("worst_peak_permille_of_budget", 0) > worst["permille"]: worst.update(peak=r["worst_peak_bytes"], n=r["worst_peak_input_bytes"], permille=r["worst_peak_permille_of_budget"])
                 if r.get("stopped_early"): tot["stopped_early"] += 1
                 continue
-            c = bycase.get(r.get("index"), {})
+            c = {} if name.startswith("rand") else bycase.get(r.get("index"), {})
             if r.get("hang"): v.violation("%s: no answer within the watchdog time: %s in %s" % (name, r.get("case"), r.get("target")), {"report": r, "case": c}, tag=name)
             elif r.get("violations"): v.violation("%s: %s [%s]" % (r.get("target"), "; ".join(r["violations"])[:400], r.get("case")), {"report": r, "case": c}, tag=name)
             elif r.get("known"):
@@ -249,7 +253,7 @@ def run(v, tier, seed):
                     v.violation("micro reader: %s [%s]" % (r["known"][0][:300], r.get("case")), {"report": r, "case": c}, tag=name)
             elif r.get("drift"):
                 v.drift += 1
-                if v.drift <= 5: vlib.log("DRIFT property=C02 %s: %s [%s]" % (r.get("target"), r["drift"][0][:300], r.get("case")))
+                if v.drift <= 2: vlib.log("DRIFT property=C02 %s: %s [%s]" % (r.get("target"), r["drift"][0][:300], r.get("case")))
 
     for j, (rows, nd) in enumerate(r_cases): take("mut%d" % j, rows)
     take("mini", r_mini[0]); take("micro-valid", r_mv[0]); take("micro-hostile", r_mh[0], True)
@@ -262,7 +266,8 @@ def run(v, tier, seed):
         if name == "micro-hostile" and rc in (66, -11, -7, 67):
             f19["deaths"] += 1
             if v.known_finding("F19", "micro reader on an input that is not a complete valid Message: %s %s" % (kind, first[:160])): continue
-        desc = ("case %s: %s %s pos %s %s %s%s -> %s" % (idx, c.get("enc"), c.get("k"), c.get("pos"), c.get("wk"), c.get("sp"), c.get("w"), c.get("v"))) if c else ("case %s of %s" % (idx, name))
+        if name.startswith("rand"): c = {}; desc = "random case %s of '%s rand %d ...' (run it alone: first = %s, count = %s)" % (idx, os.path.basename(mut), seed * 16 + int(name[4:]), idx, idx + 1)
+        else: desc = ("case %s: %s %s pos %s %s %s%s -> %s" % (idx, c.get("enc"), c.get("k"), c.get("pos"), c.get("wk"), c.get("sp"), c.get("w"), c.get("v"))) if c else ("case %s of %s" % (idx, name))
         if rc == 3: continue     # the watchdog wrote its own report line
         v.violation("%s: %s while parsing %s | %s | %s" % (name, kind, desc, first[:200], where[:200]), {"harness": name, "exit": rc, "case": c or idx, "stderr": err[-3000:]}, tag=name)
     if f19["reports"] + f19["deaths"] == 0 and v.is_listed("F19"): vlib.log("NOTE property=C02 known finding F19 was not reproduced by this run")
@@ -282,6 +287,8 @@ def run(v, tier, seed):
     for d, (rc, out, err) in zip((1000, 5000, 20000, 100000), sweep): nest_notes[str(d)] = "ok" if rc == 0 else ("stack overflow" if "stack-overflow" in err or rc in (-11, 139) else "exit %s" % rc)
 
     if tot["parser_runs"] == 0: raise vlib.MachineryError("no parser was run")
+    # (with a broken parser the relabelled cases can behave differently: the self-test is decisive only when nothing else was found)
+    if not st_ok and not v.violations: raise vlib.MachineryError("oracle self-test: relabelled / corrupted cases were not flagged by the harness (%s)" % st_txt)
     expected_runs = len(cases)
     ran = sum(r.get("cases", 0) for rows, nd in r_cases for r in rows if r.get("summary"))
     if not v.violations and ran < expected_runs: raise vlib.MachineryError("only %d of %d cases were run by harness/mut.cpp" % (ran, expected_runs))
@@ -301,7 +308,7 @@ def run(v, tier, seed):
              "tlc": {"wall_s": round(t_tlc, 1), "shards": [{"bases": "%d..%d" % (lo, hi), "distinct": r.distinct, "wall_s": round(r.wall, 1)} for (lo, hi, w), r in zip(shards, res)],
                      "actions_taken": {a: sum(n for (e, k), n in bykind_all.items() if k == a.lower()) for a in ("Trunc", "Word", "Splice")},
                      "note": "TLC's -coverage mode does not finish on this specification (deep recursive operators: > 3 min for one base); the action counts are measured from the states TLC printed",
-                     "invariants": INVS, "wrong_specifications_rejected": ["%s violates %s" % w for w in WRONG]},
+                     "invariants": INVS, "wrong_specifications_rejected": ["%s violates %s" % w for w in wrong]},
              "samples": samples}
     assumptions = ["the 'coverage-guided arbitrary bytes' clause of the property's quantifier is NOT covered (that is fuzzing, another technique); the seeded random mutation pass is extra exploration, not coverage guidance",
                    "memory safety is observed by AddressSanitizer / UBSan (-fno-sanitize=bounds, alignment off for the C codecs) and the ByteBuffer tail-poisoning seam during replay, not proved",
